@@ -3,6 +3,7 @@ package main
 import (
 	"fmt"
 	"go/token"
+	"go/types"
 	"os"
 	"path/filepath"
 	"sort"
@@ -266,3 +267,25 @@ func shortUnit(key string) string { return strings.TrimPrefix(key, repoMod+"/") 
 
 // ---------- ghost / protocol hooks (filled in by proto.go) ----------
 
+
+// imports reports whether package p transitively imports the package with path q.
+func (e *Engine) imports(p *ssa.Package, q string) bool {
+	seen := map[string]bool{}
+	var walk func(t *types.Package) bool
+	walk = func(t *types.Package) bool {
+		if t.Path() == q {
+			return true
+		}
+		if seen[t.Path()] {
+			return false
+		}
+		seen[t.Path()] = true
+		for _, i := range t.Imports() {
+			if walk(i) {
+				return true
+			}
+		}
+		return false
+	}
+	return walk(p.Pkg)
+}
